@@ -654,6 +654,62 @@ pub fn other_search_case(seed: u64, l: &mut Local) {
     }
 }
 
+/// Our instance shares its host with a service of a type nobody browses; that service is withdrawn and its goodbye
+/// takes the host's address records with it (TTL 0), in a packet whose PTR answers are none of ours. Our instance
+/// has lost its last address: ServiceRemoved one second later (D2).
+pub fn foreign_goodbye_case(seed: u64, l: &mut Local) {
+    use crate::scen::Svc;
+    let mut rng = crate::util::Rng::new(seed);
+    let mut w = World::new(seed);
+    let stepping = if rng.chance(1, 3) { Stepping::Eager(10) } else { Stepping::Lazy };
+    w.set_stepping(stepping);
+    let sl = slack(stepping);
+    let h = w.add_host(scen::single_v4());
+    w.set_ip_check_interval(h, 3600);
+    let Some(chan) = w.browse(h, browser::TY) else { return };
+    w.run_for(rng.below(900));
+    let host = if rng.chance(1, 2) { "Shared-Box.local" } else { "shared-box.local" };
+    let mut s = Svc::new(browser::TY, if rng.chance(1, 2) { "Ours Upstairs" } else { "ours" }, host, [10, 0, 0, 50]);
+    s.ttl_ptr = 4500;
+    s.ttl_srv = 120;
+    s.ttl_addr = 120;
+    let f = Svc::new("_elsewhere._tcp.local.", "thing", host, [10, 0, 0, 50]);
+    if rng.chance(1, 2) {
+        w.inject_msg(h, 2, scen::peer4(50), &f.announce());
+        w.run_for(rng.below(500));
+    }
+    w.inject_msg(h, 2, scen::peer4(50), &s.announce());
+    w.run_for(1500 + rng.below(2500));
+    let t_bye = w.now();
+    w.inject_msg(h, 2, scen::peer4(50), &f.goodbye());
+    let silent_after = rng.chance(1, 2);
+    if !silent_after {
+        // the host is still there for our instance: it says so again two seconds later
+        w.run_for(2000);
+        let mut m = wire::Message::response();
+        m.answers.extend(s.addrs());
+        w.inject_msg(h, 2, scen::peer4(50), &m);
+    }
+    w.run_until(t_bye + 5000);
+    l.evaluations += 1;
+    l.distinct.insert(util::fnv_str(&format!("foreign-goodbye|{host}|{silent_after}|{stepping:?}")));
+    if w.trace.deaths().any(|d| matches!(d.ev, Ev::Death { panicked: true, .. })) {
+        l.inconclusive.push(format!("daemon died in a C05 scenario (seed {seed})"));
+        return;
+    }
+    l.act("D2-foreign-goodbye");
+    let full = s.fullname();
+    let removed: Vec<u64> = w.trace.obs(chan).filter_map(|(e, o)| match o { Obs::Removed(_, n) if *n == full => Some(e.t), _ => None }).collect();
+    let due = t_bye + 1000;
+    if !removed.iter().any(|t| *t >= due && *t <= due + sl) {
+        l.violate(
+            Violation::new("D2", format!("D2/no-removal-at-departure/address/{}/goodbye-in-a-foreign-service-packet", if removed.is_empty() { "never" } else { "late" }),
+                format!("the address records of {host} were withdrawn (TTL 0) in the goodbye of a service of an unbrowsed type; {full} lost its last address, ServiceRemoved came at {:?} ms after the goodbye", removed.iter().map(|t| t.saturating_sub(t_bye)).collect::<Vec<_>>()))
+                .with(json!({"trace": scen::witness_window(&w.trace, t_bye.saturating_sub(100), t_bye + 3000, 40)})),
+        );
+    }
+}
+
 /// D4 in isolation: one resolved instance with long TTLs, nothing else going on, a verify
 /// request with timeout T that the responder answers (no removal at all) or not (removal
 /// at T, not before: nothing else can make the daemon look at the instance earlier).
@@ -720,7 +776,7 @@ pub fn run_c05(report: &Report, tier: &Tier) {
          distinct by (shape, event kinds) / (timeout, answered, stepping)",
     );
     report.assume("a removal up to one second before a record's expiry is accepted (the crate treats the last second of a record as gone)");
-    for r in ["D2", "D3", "D4", "D5", "D5-interface-loss", "D2-other-search"] {
+    for r in ["D2", "D3", "D4", "D5", "D5-interface-loss", "D2-other-search", "D2-foreign-goodbye"] {
         report.floor(r, 50);
     }
     let seed = report.seed;
@@ -736,12 +792,12 @@ pub fn run_c05(report: &Report, tier: &Tier) {
         verify_case(util::mix(seed, 0xC05_7000 + i), l);
     });
     // no removal of what is still known on an interface that is left
-    let np: u64 = if tier.thorough { 40_000 } else { 800 };
+    let np: u64 = if tier.thorough { 60_000 } else { 1_200 };
     run_parallel(report, np, threads(), tier.budget_s * 0.1, |i, l| {
-        if i % 2 == 0 {
-            interface_loss_case(util::mix(seed, 0xC05_9000 + i), "C05", l);
-        } else {
-            other_search_case(util::mix(seed, 0xC05_A000 + i), l);
+        match i % 3 {
+            0 => interface_loss_case(util::mix(seed, 0xC05_9000 + i), "C05", l),
+            1 => other_search_case(util::mix(seed, 0xC05_A000 + i), l),
+            _ => foreign_goodbye_case(util::mix(seed, 0xC05_B000 + i), l),
         }
     });
 }
